@@ -229,6 +229,14 @@ func gen(r *vh.Rand, tier string) []string {
 	for i := 0; i < n; i++ {
 		out = append(out, genCase(r, i%100 == 50)) // 1% of the cases pause between the requests
 	}
+	// scripted histories on the real guns / clients / transports, compared exactly with the transport model
+	nh := 200
+	if tier == "thorough" {
+		nh = 4000
+	}
+	for i := 0; i < nh; i++ {
+		out = append(out, genHist(r))
+	}
 	// transport / dialer construction: every config field must land in the same-named field of the built object
 	for i := 0; i < 6; i++ {
 		out = append(out, fmt.Sprintf("tr %d", r.Intn(4096)))
